@@ -66,13 +66,17 @@ CLAIMED = {
          "A failing lemma triggers a search over stores with the REAL Field.value against an independent evaluation of the instruction. "
          "Carry sentences of the templates ('enter here and on Form 1040, line 8', 'also include this amount on ... line 4b'; 11 per year) are "
          "obligations too: the destination line statically reads the source line, through intermediate lines and for every copy of a "
-         "per-person form (reflective reachability over the regenerated reference graph).",
+         "per-person form (reflective reachability over the regenerated reference graph). The N.C. templates have no accessibility text: their "
+         "printed captions are decoded from the page content streams (tools/pdf_text.py, tools/nc_text.py) and give 12 more line lemmas per year "
+         "(Add Lines 6 and 7; Multiply Line 14 by 4.75% (0.0475), if zero or less enter a zero; ...) and the carries between Schedule S / A and D-400 "
+         "('(From Form D-400 Schedule S, Part A, Line 16)': both ends equal on real returns; a source line the solve never evaluated is "
+         "evaluated by its shipped definition on the return's own values and answers).",
     design_ref='DESIGN.md §4 C02',
-    note="Coverage is limited by what the templates say: only IRS forms carry instruction text, only sentences the strict phrase grammar "
+    note="Coverage is limited by what the templates say: only sentences the strict phrase grammar "
          "consumes completely yield an obligation (counted in evidence: ~107 widgets with arithmetic words, ~80 parsed per year), and conditional "
          "instructions depending on form structure are outside. The older Arith.compile path (core fragment proved, extended fragment "
          "validated) is kept beside it as a second derivation of the same lemmas. Statement is over exact decimals "
-         "before rounding; binary64 is outside. Trusted: tools/pdf_reader.py, tools/instr.py, tools/gen_forms.py, one override "
+         "before rounding; binary64 is outside. Trusted: tools/pdf_reader.py, tools/pdf_text.py, tools/nc_text.py, tools/instr.py, tools/gen_forms.py, one override "
          "(oracles/instr_overrides.json). Print Assumptions: closed under the global context.",
     technique='Rocq per-line lemmas (lra over Q) over arithmetic terms compiled from regenerated line bodies, compile_sound proof to the Forms interpreter, instruction oracle parsed from the bundled PDFs',
  ),
